@@ -14,16 +14,16 @@ CLAIMED = {
    "Seeded exploration. Engine N: real Server + 1..3 Channels (hyper, h2, Buffer, router) over the simulated network with fragmentation, stalls and randomised HTTP/2 windows/frame size; 1..8 concurrent tagged calls of all shapes multiplexed on the connections, identity-channel oracle per call; a separate fault-injecting configuration kills the connection at a drawn byte offset (never success with wrong/missing data, items a prefix, clean end only after true OK, no hang); the raw-h2 server-view scenario judges status/messages as an independent wire reader. Engine F: generated clients call generated servers (raw codec, prost with/without package; all four shapes) over a loopback whose request and response bodies are re-chunked and delayed by the tape; scripted handlers produce k messages then OK or any Status (Unicode message, details, metadata), possibly refusing the call; the oracle is the identity channel on messages, metadata and status in both directions. Evidence, not proof.",
    "Engine N varies interleavings through the seams (readiness, stalls, windows, start offsets, handler gaps); tokio's run queue is FIFO. Pipe capacity >= HTTP/2 windows and calls start after SETTINGS settle (DESIGN §13.2). Trusted: harness handlers, loopback, raw h2 peer."),
  "C03": ("F+N", "DESIGN.md §7 C03, §13",
-   "Engine N true wire views through raw peers written on the h2 crate only: what a raw h2 server receives from a tonic Channel (method, :path, :scheme, content-type, te, body, END_STREAM, no trailers) and what a raw h2 client receives from a tonic Server (status, content-type, DATA, one grpc-status in trailers or END_STREAM headers). Engine F passive wire monitor on every C01/C02/C06 run: request head (POST, HTTP/2, path, content-type, te), response head (200, content-type), bodies parsed by an independent length-prefix parser and inflated with the announced encoding against the codec's serialization, exactly one grpc-status in a single final trailers block or in body-less headers, no request trailers. Evidence, not proof.",
+   "Engine N true wire views through raw peers written on the h2 crate only: what a raw h2 server receives from a tonic Channel (method, :path, :scheme, content-type, te, body, END_STREAM, no trailers) and what a raw h2 client receives from a tonic Server (status, content-type, DATA, one grpc-status in trailers or END_STREAM headers). Engine F passive wire monitor on every C01/C02/C06 run: request head (POST, HTTP/2, path, content-type, te), response head (200, content-type), bodies parsed by an independent length-prefix parser and inflated with the announced encoding against the codec's serialization, exactly one grpc-status in a single final trailers block or in body-less headers, no request trailers. Scenario F-encoder-error: a codec that fails to serialize one message at any position after writing part of it — the wire carries exactly the earlier messages, whole, then one error status (heap contents are zero-filled by the harness allocator so that leaked unwritten bytes replay). Evidence, not proof.",
    "'Nothing after trailers' is judged as hyper's HTTP/2 sender consumes a body. In engine F the wire is the http::Request/Response handed to the transport seam."),
  "C04": ("F+N", "DESIGN.md §7 C04, §13",
    "Seeded exploration + complete enumeration of the two tables (engine F): a scripted hostile peer answers a generated client with arbitrary/malformed grpc-status, grpc-message (bad percent-encoding, bad UTF-8), grpc-status-details-bin (bad base64); every HTTP status 100..=599 without grpc-status; every reset reason 0..=15 as an h2::Error body error; oracle = never panic, always a definite Status, mapping tables of the property. The status round-trip clause is sampled by the C02 loopback runs.",
    "Engine N adds a raw h2 server sending real RST_STREAM(reason) before/after headers/mid-body and HTTP statuses with non-gRPC bodies (the real hyper::Error path), and the raw-client server view judging grpc-message/details as written on the wire. The for-all-statuses round trip is a pure function: sampled, not decided. Known finding: C04/reset-read-as-success-reason-0 (known_findings.json)."),
  "C05": ("F", "DESIGN.md §7 C05",
-   "Complete enumeration of the 2048 (server accept, server send, client send, client accept) configurations followed by seeded exploration (engine F): two tonic parties over the loopback, a foreign client peer with arbitrary grpc-accept-encoding/grpc-encoding values and flag bytes against a tonic server, a foreign server peer against a tonic client; oracle = reference negotiation function (chosen in send ∩ offered, UNIMPLEMENTED + exact accept list on refusal, INTERNAL for an ill-flagged message, client sends/advertises exactly its configuration).",
+   "Complete enumeration of the 2048 (server accept, server send, client send, client accept) configurations followed by seeded exploration (engine F): two tonic parties over the loopback, a foreign client peer with arbitrary grpc-accept-encoding/grpc-encoding values and flag bytes against a tonic server, a foreign server peer against a tonic client; oracle = reference negotiation function (chosen in send ∩ offered, UNIMPLEMENTED + exact accept list on refusal, INTERNAL for an ill-flagged message — compressed, plain or empty payload —, client sends/advertises exactly its configuration).",
    "Whether a server must compress when it could is not prescribed (probe only)."),
  "C06": ("F", "DESIGN.md §7 C06",
-   "Seeded exploration (engine F): Streaming with a decoding limit fed frames whose wire length is limit-1/limit/limit+1 (also compressed, also at the 4 MiB default) and declared lengths up to 2^32-1 followed by a silent peer, under a counting allocator; EncodeBody with an encoding limit and an oversized message at any position of a stream whose earlier messages are buffered or flushed depending on readiness; thorough adds the >4 GiB probe.",
+   "Seeded exploration (engine F): Streaming with a decoding limit fed frames whose wire length is limit-1/limit/limit+1 (also compressed, also at the 4 MiB default) and declared lengths up to 2^32-1 followed by a silent peer, under a counting allocator; an accepted message is compared with its serialization however far it inflates beyond the limit; EncodeBody with an encoding limit and an oversized message at any position of a stream whose earlier messages are buffered or flushed depending on readiness; thorough adds the >4 GiB probe.",
    "For compressed outgoing messages the verdict is judged away from the boundary only (conservation always)."),
  "C07": ("F", "DESIGN.md §7 C07, §3.2",
    "Seeded exploration (engine F): tonic::codec::Streaming is driven poll by poll over simulated bodies carrying mutated/random byte strings in arbitrary chunkings, with injected Pending, body errors of several types, trailers and a silent peer; an independent sequential framing parser is the reference; the stream is polled past its first terminal event. A clean batch is evidence, not proof.",
@@ -35,10 +35,10 @@ CLAIMED = {
    "Seeded exploration in virtual time (engine N): real serve_with_incoming_shutdown with 0..3 connections and 1..6 unary/streaming/bidi calls with virtual latencies; the signal is placed at a drawn virtual instant or right after the k-th handler entry; one more connection is offered strictly after the signal; oracle: every call whose handler was entered completes at its caller with the true outcome (C02 oracle), the late connection is never served, the serve future resolves only after every accepted connection's server end was dropped (ordered by a global event sequence) and does resolve once they have. Also drawn: accept errors from the listener, shutdown by the end of the incoming stream, Server::timeout (150 ms, above every handler latency) and max_connection_age (20/60 ms) — none may weaken the drain.",
    "Accepted = handler entered. Closure of connections after the last in-flight call is a probe, not judged."),
  "C14": ("N", "DESIGN.md §7 C14, §3.3",
-   "Complete enumeration of all 726 fault scripts of length <= 5 over {connect fails, connect succeeds, established connection dropped} x {lazy, eager}, then seeded random scripts up to length 14 (engine N): real Channel (Buffer worker, Reconnect, hyper/h2 client) and Server; a call (sometimes two back-to-back) at every quiescent point; oracle = two-state reference automaton matching per-call outcome and connector invocation count one-to-one (connector failure => UNAVAILABLE to the triggering call only, eager initial failure reported immediately, success without rebuilding once reachable). 12 io::ErrorKinds and connect_timeout drawn. Relaxed configuration: the connection dies at a drawn byte offset during a call — EOF, reset, or a silent partition (blackhole) with HTTP/2 keep-alive configured — => definite result within the keep-alive bound, no hang/panic, recovery at the next quiescent calls. Graceful configuration: the server retires connections by GOAWAY (max_connection_age) while the channel is idle; every later round of calls succeeds on a fresh connection. URI-without-scheme configuration: every call gets the same definite error, no panic in the background task. Balanced configuration (hook H4): tower p2c Balance over one lazily connected endpoint under failing/succeeding attempts and killed connections — no hang, failures UNAVAILABLE, at most one attempt per call, recovery. TLS part (run by the same command from the tsim-tls package, evidence merged under coverage.tls_part): a TLS channel whose connections die 1..3 times reconnects through the TLS connector every time. Connect-timeout configuration: attempts that never complete or complete too late are given up after Endpoint::connect_timeout, eager and lazy.",
+   "Complete enumeration of all 726 fault scripts of length <= 5 over {connect fails, connect succeeds, established connection dropped} x {lazy, eager}, then seeded random scripts up to length 14 (engine N): real Channel (Buffer worker, Reconnect, hyper/h2 client) and Server; a call (sometimes two back-to-back) at every quiescent point; oracle = two-state reference automaton matching per-call outcome and connector invocation count one-to-one (connector failure => UNAVAILABLE to the triggering call only, eager initial failure reported immediately, success without rebuilding once reachable). 12 io::ErrorKinds and connect_timeout drawn. Relaxed configuration: the connection dies at a drawn byte offset during a call — EOF, reset, or a silent partition (blackhole) with HTTP/2 keep-alive configured — => definite result within the keep-alive bound, no hang/panic, recovery at the next quiescent calls. Graceful configuration: the server retires connections by GOAWAY (max_connection_age) while the channel is idle; every later round of calls succeeds on a fresh connection. URI-without-scheme configuration: every call gets the same definite error, no panic in the background task. Balanced configuration (hook H4): tower p2c Balance over one lazily connected endpoint under failing/succeeding attempts and killed connections — no hang, failures UNAVAILABLE, at most one attempt per call, recovery; in a third of the runs the application replaces the endpoint (Remove+Insert or Insert over the live key) and the old host is gone for good. TLS part (run by the same command from the tsim-tls package, evidence merged under coverage.tls_part): a TLS channel whose connections die 1..3 times reconnects through the TLS connector every time. Connect-timeout configuration: attempts that never complete or complete too late are given up after Endpoint::connect_timeout, eager and lazy.",
    "Calls are issued at quiescent points, as the property states."),
  "C15": ("N", "DESIGN.md §7 C15, §3.3",
-   "Complete enumeration of the 486-cell matrix (client roots x domain x server ALPN x assume_http2 x server client-auth x client identity), each cell again under further seeded network schedules (engine N, real rustls on both ends of the simulated pipe): tonic ClientTlsConfig against tonic ServerTlsConfig, or against the harness's own rustls acceptor + raw h2 server for ALPN absent/http/1.1; oracle = verdict table (success iff chain valid, name matches, h2 negotiated or opted out, client-auth satisfied); in every failing cell the call does not succeed and no request reaches a handler; the captured client bytes always start with a TLS handshake record and never show the HTTP/2 preface or the request canary in clear; handlers see the verified client certificate (DER-equal); https without TLS config fails with zero bytes written; a server whose client-CA material holds no usable certificate (30 cells: empty / not PEM / a key / garbage DER / whitespace x required/optional x client identity) is refused at configuration or serves nobody when authentication is required. Trust roots are supplied through the different builder methods (ca_certificate / ca_certificates, drawn).",
+   "Complete enumeration of the 486-cell matrix (client roots x domain x server ALPN x assume_http2 x server client-auth x client identity), each cell again under further seeded network schedules (engine N, real rustls on both ends of the simulated pipe): tonic ClientTlsConfig against tonic ServerTlsConfig, or against the harness's own rustls acceptor + raw h2 server for ALPN absent/http/1.1; oracle = verdict table (success iff chain valid, name matches, h2 negotiated or opted out, client-auth satisfied); in every failing cell the call does not succeed and no request reaches a handler; the captured client bytes always start with a TLS handshake record and never show the HTTP/2 preface or the request canary in clear; handlers see every certificate of the verified client identity — a single certificate or a leaf+intermediate chain, drawn — DER-equal; use_key_log() drawn on both sides changes no verdict; https without TLS config fails with zero bytes written; a server whose client-CA material holds no usable certificate (30 cells: empty / not PEM / a key / garbage DER / whitespace x required/optional x client identity) is refused at configuration or serves nobody when authentication is required. Trust roots are supplied through the different builder methods (ca_certificate / ca_certificates, drawn).",
    "Cells the property leaves open are not judged. rustls checks certificate validity against the wall clock (PKI valid 2020..2120). Ciphertext differs between executions; schedule, lengths and verdicts replay exactly."),
  "C16": ("F", "DESIGN.md §7 C16",
    "Seeded exploration (engine F): the real GrpcWebLayer wraps a scripted inner service; grpc-web requests (binary or one base64 string) are cut at arbitrary positions incl. inside a 4-char quantum; inner gRPC responses (frames cut anywhere, arbitrary trailers incl. repeated names/obs-text, or trailers-only) are translated for Accept binary/text/absent/other; an independent grpc-web decoder checks identical message bytes + exactly one final 0x80 trailers frame listing every trailer; the (method, version, content-type) cases are checked for 405/400/pass-through-unchanged.",
